@@ -22,6 +22,15 @@ type C16Op struct {
 	Remove []string  `json:"remove,omitempty"`
 	EM     int       `json:"em,omitempty"`
 	Text   string    `json:"text,omitempty"`
+	// exec: Method 0 = ExecuteRulesWithMultiInputWithSpecifiedEM, k > 0 = the k-th pool execute
+	// method with arguments that schedule the whole denoted set (Salt varies N/M, layering and
+	// the order of the name list); Absent selects names outside the denoted set that are added
+	// to (or, with OnlyAbsent, replace) the name list of a selected variant
+	Method     int  `json:"method,omitempty"`
+	Salt       int  `json:"salt,omitempty"`
+	B          bool `json:"b,omitempty"`
+	Absent     int  `json:"absent,omitempty"`
+	OnlyAbsent bool `json:"only_absent,omitempty"`
 }
 
 type C16Case struct {
@@ -89,7 +98,25 @@ func init() {
 				case k <= 16:
 					c.Ops = append(c.Ops, C16Op{Kind: "probe"})
 				default:
-					c.Ops = append(c.Ops, C16Op{Kind: "exec"})
+					op := C16Op{Kind: "exec"}
+					if pct(t, pfx+"anymethod", 60) {
+						op.Method = uni(t, pfx+"method", 1, 24)
+						op.Salt = uni(t, pfx+"salt", 0, 5)
+						op.B = rapid.Bool().Draw(t, pfx+"b")
+						if pct(t, pfx+"absent", 45) {
+							op.Absent = uni(t, pfx+"absentmask", 1, 255)
+							op.OnlyAbsent = pct(t, pfx+"onlyabsent", 40)
+							// absent names only matter to the selected variants without an N/M split
+							var sel []int
+							for i, n := range gx.MethodNames(true) {
+								if m, _ := gx.Lookup(n); m.Selected && !m.NM {
+									sel = append(sel, i+1)
+								}
+							}
+							op.Method = sel[uni(t, pfx+"selmethod", 0, len(sel)-1)]
+						}
+					}
+					c.Ops = append(c.Ops, op)
 				}
 			}
 			if c.Ops[len(c.Ops)-1].Kind != "probe" {
@@ -306,6 +333,37 @@ func checkC16(ci interface{}, x *Ctx) {
 			env.log.Reset()
 			env.gates.Reopen()
 			call := gx.Call{Method: "ExecuteRulesWithMultiInputWithSpecifiedEM"}
+			if op.Method > 0 && len(model) > 0 && !cleared {
+				ms := gx.MethodNames(true)
+				mname := ms[(op.Method-1)%len(ms)]
+				ordered := append([]string{}, names...)
+				sort.SliceStable(ordered, func(i, j int) bool { return model[ordered[i]].sal > model[ordered[j]].sal })
+				m, _ := gx.Lookup(mname)
+				if m.NM && len(ordered) < 2 {
+					mname = "Execute"
+					m, _ = gx.Lookup(mname)
+				}
+				call = fullCall(mname, ordered, op.Salt)
+				call.B = op.B
+				if m.Selected && !m.NM && op.Absent != 0 {
+					var abs []string
+					for i, n := range c08Universe {
+						if _, ok := model[n]; !ok && (op.Absent>>uint(i))&1 == 1 {
+							abs = append(abs, n)
+						}
+					}
+					if len(abs) > 0 {
+						x.Class("selected-execution-naming-removed-or-absent-rules")
+						if op.OnlyAbsent {
+							call.Names = abs
+							x.Class("selected-execution-naming-only-absent-rules")
+						} else {
+							call.Names = append(call.Names, abs...)
+						}
+					}
+				}
+				x.Class("exec-method:" + mname)
+			}
 			res := runWithSchedule(x, tg, call, nil, time.Millisecond)
 			in := models.Input{Rules: mrules, Call: call, EM: em, Cleared: cleared, Trace: env.log.Snapshot(), Err: res.Err != nil, Panic: res.Panic, Result: res.Map}
 			for _, v := range models.Validate(in) {
